@@ -5,6 +5,8 @@ import (
 	"fmt"
 	"os"
 	"path/filepath"
+	"regexp"
+	"strings"
 	"testing"
 
 	"pgregory.net/rapid"
@@ -313,6 +315,75 @@ var hostileSQL = []string{
 	"CREATE TABLE t (c0 REFERENCES t(c0) ON DELETE SET NULL ON UPDATE CASCADE DEFERRABLE INITIALLY DEFERRED, FOREIGN KEY (nosuch) REFERENCES x(y))",
 }
 
+var colRef = regexp.MustCompile(`\bc[0-9]+\b`)
+
+// editSQL makes one small edit to a definition that fits the trees: the
+// catalogue stays plausible but says something the data does not bear out, or
+// names things (collations, columns) the reader does not know.
+func editSQL(t *rapid.T, q string) string {
+	refs := colRef.FindAllStringIndex(q, -1)
+	// the references inside the last parenthesised list: the key columns of
+	// an index, or of a table-level PRIMARY KEY
+	var keyRefs [][]int
+	if open := strings.LastIndex(q, "("); open >= 0 {
+		for _, r := range refs {
+			if r[0] > open {
+				keyRefs = append(keyRefs, r)
+			}
+		}
+	}
+	pick := func() []int {
+		if len(keyRefs) > 0 && rapid.IntRange(0, 2).Draw(t, "inkey") > 0 {
+			return keyRefs[rapid.IntRange(0, len(keyRefs)-1).Draw(t, "kref")]
+		}
+		return refs[rapid.IntRange(0, len(refs)-1).Draw(t, "ref")]
+	}
+	unknownColl := []string{"mycoll", "nosuch", "UTF16", "NOCASE", "rtrim", "binary", "\"\"", "[my coll]", "nocase_"}
+	switch rapid.IntRange(-1, 6).Draw(t, "edit") {
+	case -1, 0, 1:
+		if len(refs) == 0 {
+			return q
+		}
+		r := pick()
+		return q[:r[1]] + " COLLATE " + rapid.SampledFrom(unknownColl).Draw(t, "coll") + q[r[1]:]
+	case 2:
+		if len(refs) == 0 {
+			return q
+		}
+		r := pick()
+		return q[:r[0]] + rapid.SampledFrom([]string{"c0", "c1", "c2", "c7", "nosuch", "rowid", "C1"}).Draw(t, "newcol") + q[r[1]:]
+	case 3:
+		if strings.HasSuffix(q, " WITHOUT ROWID") {
+			return strings.TrimSuffix(q, " WITHOUT ROWID")
+		}
+		if strings.HasPrefix(q, "CREATE TABLE") {
+			return q + " WITHOUT ROWID"
+		}
+		return q
+	case 4:
+		if strings.Contains(q, "PRIMARY KEY") {
+			return strings.Replace(q, "PRIMARY KEY", "UNIQUE", 1)
+		}
+		return strings.Replace(q, "CREATE INDEX", "CREATE UNIQUE INDEX", 1)
+	case 5:
+		if len(refs) == 0 {
+			return q
+		}
+		r := pick()
+		return q[:r[1]] + rapid.SampledFrom([]string{" DESC", " ASC", " TEXT", " INTEGER", " DEFAULT 'x'", " NOT NULL"}).Draw(t, "suffix") + q[r[1]:]
+	default:
+		if i := strings.Index(q, "COLLATE "); i >= 0 {
+			j := i + len("COLLATE ")
+			k := j
+			for k < len(q) && q[k] != ' ' && q[k] != ',' && q[k] != ')' {
+				k++
+			}
+			return q[:j] + rapid.SampledFrom(unknownColl).Draw(t, "coll2") + q[k:]
+		}
+		return q
+	}
+}
+
 func TestC05Schema(t *testing.T) {
 	vt.Exec(t, vt.Check[schemaSpec]{
 		ID: "C05", Test: "TestC05Schema",
@@ -324,7 +395,9 @@ func TestC05Schema(t *testing.T) {
 			types := []string{"table", "table", "index", "index", "view", "trigger", "", "TABLE"}
 			validSQL := []string{"CREATE TABLE t (c0, c1, c2, c3)", "CREATE TABLE t (c0 INTEGER PRIMARY KEY, c1)", "CREATE TABLE w (c0, c1, c2, PRIMARY KEY (c0, c1)) WITHOUT ROWID",
 				"CREATE INDEX i0 ON t (c1, c0 DESC)", "CREATE INDEX i1 ON t (c2 COLLATE NOCASE)", "CREATE INDEX i0 ON w (c1)", "CREATE INDEX i1 ON w (c3, c2, c1)", "CREATE TABLE t (c0, c1, PRIMARY KEY (c1, c0)) WITHOUT ROWID",
-				"CREATE TABLE w (c0, c1, c2, c3, c4, c5, PRIMARY KEY (c5, c4)) WITHOUT ROWID", "CREATE TABLE t (c0 UNIQUE, c1 UNIQUE, c2, UNIQUE (c2, c1))", "CREATE TABLE t (c0 TEXT PRIMARY KEY, c1)"}
+				"CREATE TABLE w (c0, c1, c2, c3, c4, c5, PRIMARY KEY (c5, c4)) WITHOUT ROWID", "CREATE TABLE t (c0 UNIQUE, c1 UNIQUE, c2, UNIQUE (c2, c1))", "CREATE TABLE t (c0 TEXT PRIMARY KEY, c1)",
+				"CREATE TABLE w (c0 TEXT COLLATE mycoll, c1, c2, PRIMARY KEY (c0)) WITHOUT ROWID", "CREATE TABLE w (c0, c1, c2, PRIMARY KEY (c0 COLLATE mycoll, c1)) WITHOUT ROWID",
+				"CREATE INDEX i0 ON t (c1 COLLATE mycoll)", "CREATE INDEX i0 ON w (c1 COLLATE nosuch, c2)", "CREATE TABLE t (c0 COLLATE mycoll PRIMARY KEY, c1 COLLATE mycoll UNIQUE)"}
 			genSQL := func(name string) string {
 				switch rapid.IntRange(0, 3).Draw(t, "sqlkind") {
 				case 0:
@@ -355,7 +428,11 @@ func TestC05Schema(t *testing.T) {
 			for i := 0; i < nm; i++ {
 				k := rapid.IntRange(0, len(rows)-1).Draw(t, "row")
 				row := &rows[k]
-				switch rapid.IntRange(0, 8).Draw(t, "lie") {
+				switch rapid.IntRange(0, 14).Draw(t, "lie") {
+				case 9, 10, 11, 12, 13, 14:
+					if len(row.Fields) > 4 && row.Fields[4].T == 't' {
+						row.Fields[4] = val.Text(editSQL(t, string(row.Fields[4].B)))
+					}
 				case 0, 1, 2:
 					if len(row.Fields) > 4 {
 						row.Fields[4] = val.Text(genSQL(string(row.Fields[1].B)))
